@@ -948,6 +948,8 @@ var profC03 = Profile{
 	Subdirs: true, ParentAbs: true, Extras: true, Cores: true, Zip: true, EmptyOuts: true, Joins: true,
 	// (Go-function tasks work in temp directories too; both ways of writing)
 	Custom: true, CustomIdiom: true,
+	// (tagging components re-write the audit file of an EXISTING output in place)
+	Taggers: true,
 }
 
 // finalBefore: declared outputs that are already final (present) in a tree.
@@ -979,7 +981,13 @@ func recoverFrom(c *Case, w *WF, ex *Expect, sn Snap, cleanup bool, snapshots bo
 	if !cleanup && len(left) > 0 {
 		// leftovers present: the rerun must refuse instead of adopting them
 		if completedOK(inc) || s.ExitCode == 0 {
-			return inc, Viol("leftovers-adopted", "", "%s; leftovers %v not removed, yet the re-run ended with %s", what, left, endDesc(inc))
+			sig := ""
+			if taggerSharesRecord(w) {
+				// (known finding F-C03-5: the temp directory name of a tagger's sibling
+				// depends on whether the tag had been attached when the task was formed)
+				sig = "sibling-of-tagger-tempdir"
+			}
+			return inc, Viol("leftovers-adopted", sig, "%s; leftovers %v not removed, yet the re-run ended with %s", what, left, endDesc(inc))
 		}
 		if s.End == simrt.EndDeadlock {
 			return inc, Viol("leftovers-hang", deadlockSig(inc), "%s; leftovers %v not removed and the re-run hangs: %s", what, left, endDesc(inc))
@@ -1034,6 +1042,25 @@ func recoverFrom(c *Case, w *WF, ex *Expect, sn Snap, cleanup bool, snapshots bo
 // command that failed in the re-run) is one of that task's lost outputs or
 // depends on one.
 func convSig(inc *Inc, ex *Expect, root *simrt.Inode) string {
+	// known finding F-C03-4: the crash state holds an EMPTY audit file (the kill
+	// fell between the truncation and the write of a tagging component's re-write)
+	// and the re-run stopped because it could not parse exactly that file
+	if inc.Sim.End == simrt.EndExit && inc.Sim.ExitCode != 0 {
+		const msg = "Could not unmarshal audit log file content: "
+		if i := strings.Index(string(inc.Sim.Stderr), msg); i >= 0 {
+			name := string(inc.Sim.Stderr)[i+len(msg):]
+			if j := strings.IndexByte(name, '\n'); j >= 0 {
+				name = name[:j]
+			}
+			abs := name
+			if !strings.HasPrefix(abs, "/") {
+				abs = cleanPath("/work/" + name)
+			}
+			if n := simrt.Find(root, abs); n != nil && n.Kind == simrt.KFile && len(n.Data) == 0 && strings.HasSuffix(abs, ".audit.json") {
+				return "torn-audit-rewrite"
+			}
+		}
+	}
 	lost := map[string]bool{}    // abs paths
 	tainted := map[*RTask]bool{} // tasks depending on a lost output
 	for _, t := range ex.Tasks {
